@@ -27,6 +27,8 @@ pub enum SeedSpec {
     Frag { seed: u64 },
     /// what is on disk when the storage dies at stream call `k` of muxing history `seed`
     Crash { seed: u64, k: u64 },
+    /// grammar-built image: well-formed boxes, random and mutually inconsistent contents
+    Grammar { seed: u64 },
 }
 
 impl SeedSpec {
@@ -39,6 +41,7 @@ impl SeedSpec {
             SeedSpec::Meta { .. } => "meta",
             SeedSpec::Frag { .. } => "frag",
             SeedSpec::Crash { .. } => "crash",
+            SeedSpec::Grammar { .. } => "grammar",
         }
     }
 }
@@ -563,12 +566,17 @@ pub fn build(spec: &SeedSpec) -> SeedImage {
             SeedImage { bytes: b, init_len: Some(l) }
         }
         SeedSpec::Crash { seed, k } => SeedImage { bytes: crash_bytes(&small_scenario(*seed), *k), init_len: None },
+        SeedSpec::Grammar { seed } => {
+            let (b, l) = grammar_image(*seed);
+            SeedImage { bytes: b, init_len: l }
+        }
     }
 }
 
 /// Swarm choice of a seed image.
 pub fn gen_spec(r: &mut Rng) -> SeedSpec {
-    match r.below(20) {
+    match r.below(26) {
+        20..=25 => SeedSpec::Grammar { seed: r.below(1 << 40) },
         0 | 1 => SeedSpec::Canned("minimal.mp4".into()),
         2 => SeedSpec::Canned("extended_audio_object_type.mp4".into()),
         3 => {
@@ -653,5 +661,431 @@ mod tests {
             }
         }
         assert!(with_samples > 500, "only {with_samples} samples read from fragment images");
+    }
+}
+
+// ---------------------------------------------------------------------------------------------
+// Grammar-built images: well-formed boxes (every size correct) whose *contents* are random and
+// need not be mutually consistent - tables of unrelated lengths, duplicated or missing optional
+// boxes, shuffled children, several tracks with equal ids, fragments for unknown tracks. These
+// are states that a handful of storage faults on a valid file does not reach.
+// ---------------------------------------------------------------------------------------------
+
+fn g_u32(r: &mut Rng) -> u32 {
+    match r.below(6) {
+        0 => 0,
+        1 => 1,
+        2 => r.below(16) as u32,
+        3 => r.below(5000) as u32,
+        4 => r.edgy_u32(),
+        _ => r.next_u32(),
+    }
+}
+
+fn g_table(r: &mut Rng, typ: &[u8; 4], version: u8, entry_words: usize, maxn: u64) -> Vec<u8> {
+    let n = match r.below(8) {
+        0 => 0,
+        1 => 1,
+        _ => r.below(maxn + 1),
+    } as usize;
+    let mut b = Vec::new();
+    // declared count: usually honest, sometimes off
+    let declared = match r.below(40) {
+        0 => n as u32 + 1,
+        1 => (n as u32).saturating_sub(1),
+        2 => g_u32(r),
+        _ => n as u32,
+    };
+    b.extend_from_slice(&declared.to_be_bytes());
+    let wild = r.chance(1, 6);
+    let mut running = 0u32;
+    for i in 0..n {
+        for w in 0..entry_words {
+            let v: u32 = if wild {
+                g_u32(r)
+            } else {
+                match (typ, w) {
+                    (b"stsc", 0) => {
+                        running += if i == 0 { 1 } else { 1 + r.below(3) as u32 };
+                        running
+                    }
+                    (b"stsc", 1) => *r.pick(&[1u32, 1, 2, 3, 5, 0]),
+                    (b"stsc", _) => 1,
+                    (b"stts", 0) | (b"ctts", 0) => r.below(6) as u32,
+                    (b"stss", _) => {
+                        running += 1 + r.below(3) as u32;
+                        running
+                    }
+                    (b"stco", _) => r.below(900) as u32,
+                    (b"co64", 0) => 0,
+                    (b"co64", _) => r.below(900) as u32,
+                    _ => match r.below(3) {
+                        0 => r.below(4) as u32,
+                        1 => 1 + r.below(3000) as u32,
+                        _ => g_u32(r),
+                    },
+                }
+            };
+            b.extend_from_slice(&v.to_be_bytes());
+        }
+    }
+    full(typ, version, 0, &b)
+}
+
+fn g_visual_entry(r: &mut Rng, typ: &[u8; 4]) -> Vec<u8> {
+    let mut b = vec![0u8; 78];
+    b[6..8].copy_from_slice(&1u16.to_be_bytes());
+    b[24..26].copy_from_slice(&(r.below(65536) as u16).to_be_bytes());
+    b[26..28].copy_from_slice(&(r.below(65536) as u16).to_be_bytes());
+    let cfg: Vec<u8> = match typ {
+        b"avc1" => {
+            let nsps = r.below(3) as u8;
+            let npps = r.below(3) as u8;
+            let mut c = vec![1, 100, 0, 31, 0xFF, 0xE0 | nsps];
+            for _ in 0..nsps {
+                let l = r.below(12) as u16;
+                c.extend_from_slice(&l.to_be_bytes());
+                c.extend((0..l).map(|i| i as u8));
+            }
+            c.push(npps);
+            for _ in 0..npps {
+                let l = r.below(8) as u16;
+                c.extend_from_slice(&l.to_be_bytes());
+                c.extend((0..l).map(|i| i as u8));
+            }
+            bx(b"avcC", &c)
+        }
+        b"hev1" => {
+            let mut c = vec![0u8; 22];
+            c[0] = 1;
+            let na = r.below(3) as u8;
+            c.push(na);
+            for a in 0..na {
+                c.push(32 + a);
+                let nn = r.below(3) as u16;
+                c.extend_from_slice(&nn.to_be_bytes());
+                for _ in 0..nn {
+                    let l = r.below(10) as u16;
+                    c.extend_from_slice(&l.to_be_bytes());
+                    c.extend((0..l).map(|i| i as u8));
+                }
+            }
+            bx(b"hvcC", &c)
+        }
+        _ => full(b"vpcC", 1, 0, &[0, 0x1F, 0x80, 0, 0, 0, 0, 0]),
+    };
+    let extra = if r.chance(1, 4) { bx(b"pasp", &[0, 0, 0, 1, 0, 0, 0, 1]) } else { vec![] };
+    let kids = if r.chance(1, 6) { cat(&[&extra, &cfg]) } else { cat(&[&cfg, &extra]) };
+    bx(typ, &cat(&[&b, &kids]))
+}
+
+fn g_trak(r: &mut Rng, id: u32) -> Vec<u8> {
+    // tkhd
+    let v1 = r.chance(1, 4);
+    let mut t = Vec::new();
+    if v1 {
+        t.extend_from_slice(&[0u8; 16]);
+        t.extend_from_slice(&id.to_be_bytes());
+        t.extend_from_slice(&[0u8; 4]);
+        t.extend_from_slice(&r.next_u64().to_be_bytes());
+    } else {
+        t.extend_from_slice(&[0u8; 8]);
+        t.extend_from_slice(&id.to_be_bytes());
+        t.extend_from_slice(&[0u8; 4]);
+        t.extend_from_slice(&g_u32(r).to_be_bytes());
+    }
+    t.extend_from_slice(&[0u8; 60]);
+    let tkhd = full(b"tkhd", v1 as u8, 1, &t);
+    // mdhd
+    let mv1 = r.chance(1, 4);
+    let mut m = Vec::new();
+    let ts = match r.below(6) {
+        0 => 0,
+        1 => 1,
+        _ => *r.pick(&[1000u32, 90000, 48000, u32::MAX]),
+    };
+    if mv1 {
+        m.extend_from_slice(&[0u8; 16]);
+        m.extend_from_slice(&ts.to_be_bytes());
+        m.extend_from_slice(&r.next_u64().to_be_bytes());
+    } else {
+        m.extend_from_slice(&[0u8; 8]);
+        m.extend_from_slice(&ts.to_be_bytes());
+        m.extend_from_slice(&g_u32(r).to_be_bytes());
+    }
+    m.extend_from_slice(&(r.below(0x8000) as u16).to_be_bytes());
+    m.extend_from_slice(&[0, 0]);
+    let mdhd = full(b"mdhd", mv1 as u8, 0, &m);
+    let handler: [u8; 4] = *r.pick(&[*b"vide", *b"soun", *b"sbtl", *b"text", *b"meta"]);
+    let hdlr = hdlr_box(&handler, if r.chance(1, 2) { b"h" } else { b"" });
+    // sample entry
+    let entry = match r.below(7) {
+        0 | 1 => g_visual_entry(r, b"avc1"),
+        2 => g_visual_entry(r, b"hev1"),
+        3 => g_visual_entry(r, b"vp09"),
+        4 => {
+            let mut a = vec![0u8; 28];
+            a[6..8].copy_from_slice(&1u16.to_be_bytes());
+            a[16..18].copy_from_slice(&2u16.to_be_bytes());
+            let esds = if r.chance(3, 4) {
+                let asc = [(r.below(46) as u8) << 3 | (r.below(8) as u8), ((r.below(2) as u8) << 7) | ((r.below(8) as u8) << 3)];
+                let dsi = cat(&[&[0x05, 2], &asc]);
+                let dcd = cat(&[&[0x04, (13 + dsi.len()) as u8, 0x40, 0x15, 0, 0, 0], &[0u8; 8], &dsi]);
+                let sl = [0x06u8, 1, 2];
+                let es = cat(&[&[0x03, (3 + dcd.len() + sl.len()) as u8, 0, 1, 0], &dcd, &sl]);
+                full(b"esds", 0, 0, &es)
+            } else {
+                vec![]
+            };
+            bx(b"mp4a", &cat(&[&a, &esds]))
+        }
+        5 => bx(b"tx3g", &vec![0u8; 38]),
+        _ => bx(b"zzzz", &vec![0u8; r.below(40) as usize]),
+    };
+    let nent = if r.chance(1, 8) { 2 } else { 1 };
+    let mut sd = Vec::new();
+    sd.extend_from_slice(&(nent as u32).to_be_bytes());
+    sd.extend_from_slice(&entry);
+    if nent == 2 {
+        sd.extend(bx(b"tx3g", &vec![0u8; 38]));
+    }
+    let stsd = full(b"stsd", 0, 0, &sd);
+    let nsamp = r.below(12) as u32;
+    let stts = g_table(r, b"stts", 0, 2, 4);
+    let stsc = g_table(r, b"stsc", 0, 3, 4);
+    let stsz = if r.chance(1, 2) {
+        full(b"stsz", 0, 0, &cat(&[&(1 + r.below(50) as u32).to_be_bytes(), &if r.chance(1, 6) { g_u32(r) } else { nsamp }.to_be_bytes()]))
+    } else {
+        let mut b = Vec::new();
+        b.extend_from_slice(&0u32.to_be_bytes());
+        b.extend_from_slice(&if r.chance(1, 8) { g_u32(r) } else { nsamp }.to_be_bytes());
+        for _ in 0..nsamp {
+            b.extend_from_slice(&(r.below(60) as u32).to_be_bytes());
+        }
+        full(b"stsz", 0, 0, &b)
+    };
+    let mut stbl_kids: Vec<Vec<u8>> = vec![stsd, stts, stsc, stsz];
+    match r.below(20) {
+        0 => {}
+        1 => {
+            stbl_kids.push(g_table(r, b"stco", 0, 1, 6));
+            stbl_kids.push(g_table(r, b"co64", 0, 2, 3));
+        }
+        2 => stbl_kids.push(g_table(r, b"co64", 0, 2, 4)),
+        _ => stbl_kids.push(g_table(r, b"stco", 0, 1, 8)),
+    }
+    if r.chance(1, 2) {
+        let cv = r.below(2) as u8;
+        stbl_kids.push(g_table(r, b"ctts", cv, 2, 4));
+    }
+    if r.chance(1, 2) {
+        stbl_kids.push(g_table(r, b"stss", 0, 1, 6));
+    }
+    if r.chance(1, 10) {
+        stbl_kids.push(g_table(r, b"stts", 0, 2, 3)); // duplicate table
+    }
+    r.shuffle(&mut stbl_kids);
+    let stbl = bx(b"stbl", &stbl_kids.concat());
+    let dinf = bx(b"dinf", &full(b"dref", 0, 0, &cat(&[&1u32.to_be_bytes(), &full(b"url ", 0, 1, &[])])));
+    let mut minf_kids: Vec<Vec<u8>> = vec![dinf, stbl];
+    if r.chance(1, 2) {
+        minf_kids.push(full(b"vmhd", 0, 1, &[0u8; 8]));
+    }
+    if r.chance(1, 3) {
+        minf_kids.push(full(b"smhd", 0, 0, &[0u8; 4]));
+    }
+    r.shuffle(&mut minf_kids);
+    let minf = bx(b"minf", &minf_kids.concat());
+    let mut mdia_kids = vec![mdhd, hdlr, minf];
+    r.shuffle(&mut mdia_kids);
+    let mdia = bx(b"mdia", &mdia_kids.concat());
+    let mut trak_kids = vec![tkhd, mdia];
+    if r.chance(1, 3) {
+        let v1 = r.chance(1, 2);
+        let n = r.below(3) as u32;
+        let mut b = Vec::new();
+        b.extend_from_slice(&if r.chance(1, 6) { g_u32(r) } else { n }.to_be_bytes());
+        for _ in 0..n {
+            if v1 {
+                b.extend_from_slice(&r.next_u64().to_be_bytes());
+                b.extend_from_slice(&r.next_u64().to_be_bytes());
+            } else {
+                b.extend_from_slice(&g_u32(r).to_be_bytes());
+                b.extend_from_slice(&g_u32(r).to_be_bytes());
+            }
+            b.extend_from_slice(&[0, 1, 0, 0]);
+        }
+        trak_kids.push(bx(b"edts", &full(b"elst", v1 as u8, 0, &b)));
+    }
+    if r.chance(1, 8) {
+        trak_kids.push(meta_box(r));
+    }
+    r.shuffle(&mut trak_kids);
+    bx(b"trak", &trak_kids.concat())
+}
+
+fn g_moof(r: &mut Rng, seq: u32, track_ids: &[u32]) -> Vec<u8> {
+    let mut kids: Vec<Vec<u8>> = vec![full(b"mfhd", 0, 0, &seq.to_be_bytes())];
+    let ntraf = r.below(4);
+    for _ in 0..ntraf {
+        let tid = if track_ids.is_empty() || r.chance(1, 10) { g_u32(r) } else { *r.pick(track_ids) };
+        let tf_flags: u32 = *r.pick(&[0u32, 0x020000, 0x01, 0x08, 0x18, 0x3A, 0x020008]);
+        let mut tf = Vec::new();
+        tf.extend_from_slice(&tid.to_be_bytes());
+        if tf_flags & 0x1 != 0 {
+            tf.extend_from_slice(&if r.chance(1, 2) { r.below(4000) } else { r.next_u64() }.to_be_bytes());
+        }
+        for bit in [0x2u32, 0x8, 0x10, 0x20] {
+            if tf_flags & bit != 0 {
+                tf.extend_from_slice(&g_u32(r).to_be_bytes());
+            }
+        }
+        let mut tk: Vec<Vec<u8>> = vec![full(b"tfhd", 0, tf_flags, &tf)];
+        if r.chance(3, 4) {
+            if r.chance(1, 2) {
+                tk.push(full(b"tfdt", 1, 0, &if r.chance(1, 4) { r.next_u64() } else { r.below(1 << 20) }.to_be_bytes()));
+            } else {
+                tk.push(full(b"tfdt", 0, 0, &g_u32(r).to_be_bytes()));
+            }
+        }
+        let ntrun = if r.chance(1, 8) { 2 } else if r.chance(1, 8) { 0 } else { 1 };
+        for _ in 0..ntrun {
+            let fl: u32 = *r.pick(&[0x201u32, 0x301, 0xB01, 0xF05, 0x001, 0x800, 0x100, 0x200, 0x000, 0xA01]);
+            let n = r.below(5) as u32;
+            let mut b = Vec::new();
+            b.extend_from_slice(&if r.chance(1, 8) { g_u32(r) } else { n }.to_be_bytes());
+            if fl & 1 != 0 {
+                b.extend_from_slice(&(if r.chance(1, 4) { r.next_u32() as i32 } else { r.below(400) as i32 }).to_be_bytes());
+            }
+            if fl & 4 != 0 {
+                b.extend_from_slice(&0u32.to_be_bytes());
+            }
+            for _ in 0..n {
+                for bit in [0x100u32, 0x200, 0x400, 0x800] {
+                    if fl & bit != 0 {
+                        b.extend_from_slice(&(if bit == 0x200 { r.below(30) as u32 } else { g_u32(r) }).to_be_bytes());
+                    }
+                }
+            }
+            tk.push(full(b"trun", 0, fl, &b));
+        }
+        r.shuffle(&mut tk);
+        kids.push(bx(b"traf", &tk.concat()));
+    }
+    if r.chance(1, 10) {
+        kids.remove(0); // no mfhd
+    }
+    bx(b"moof", &kids.concat())
+}
+
+/// Returns (bytes, init_len if a fragmented tail was generated).
+pub fn grammar_image(seed: u64) -> (Vec<u8>, Option<usize>) {
+    let mut r = Rng::new(seed ^ 0x6AA3);
+    let ftyp = bx(b"ftyp", &cat(&[b"isom", &512u32.to_be_bytes(), b"isomiso2"]));
+    let ntrak = match r.below(8) {
+        0 => 0,
+        1..=4 => 1,
+        5 | 6 => 2,
+        _ => 3,
+    };
+    let mut ids = Vec::new();
+    let mut moov_kids: Vec<Vec<u8>> = Vec::new();
+    // mvhd
+    let v1 = r.chance(1, 4);
+    let mut m = Vec::new();
+    let ts = match r.below(6) {
+        0 => 0u32,
+        _ => *r.pick(&[1000u32, 600, 90000, 1]),
+    };
+    if v1 {
+        m.extend_from_slice(&[0u8; 16]);
+        m.extend_from_slice(&ts.to_be_bytes());
+        m.extend_from_slice(&r.next_u64().to_be_bytes());
+    } else {
+        m.extend_from_slice(&[0u8; 8]);
+        m.extend_from_slice(&ts.to_be_bytes());
+        m.extend_from_slice(&g_u32(&mut r).to_be_bytes());
+    }
+    m.extend_from_slice(&[0u8; 80]);
+    moov_kids.push(full(b"mvhd", v1 as u8, 0, &m));
+    for i in 0..ntrak {
+        let id = match r.below(8) {
+            0 => 1, // duplicate ids are likely
+            1 => g_u32(&mut r).max(1),
+            _ => i as u32 + 1,
+        };
+        ids.push(id);
+        moov_kids.push(g_trak(&mut r, id));
+    }
+    let fragmented = r.chance(1, 3);
+    if fragmented || r.chance(1, 6) {
+        let mut mv = Vec::new();
+        if r.chance(1, 2) {
+            mv.extend(full(b"mehd", r.below(2) as u8, 0, &r.next_u64().to_be_bytes()[..if r.chance(1, 2) { 4 } else { 8 }]));
+        }
+        let trex_ids: Vec<u32> = if ids.is_empty() { vec![1] } else { ids.iter().copied().take(2).collect() };
+        for id in trex_ids.iter() {
+            mv.extend(full(b"trex", 0, 0, &cat(&[&id.to_be_bytes(), &1u32.to_be_bytes(), &g_u32(&mut r).to_be_bytes(), &g_u32(&mut r).to_be_bytes(), &0u32.to_be_bytes()])));
+        }
+        moov_kids.push(bx(b"mvex", &mv));
+    }
+    if r.chance(1, 4) {
+        moov_kids.push(bx(b"udta", &meta_box(&mut r)));
+    }
+    if r.chance(1, 8) {
+        moov_kids.push(meta_box(&mut r));
+    }
+    let first = moov_kids.remove(0);
+    r.shuffle(&mut moov_kids);
+    if r.chance(7, 8) {
+        moov_kids.insert(0, first);
+    } else {
+        moov_kids.push(first);
+    }
+    let moov = bx(b"moov", &moov_kids.concat());
+    let mut payload = vec![0u8; r.below(400) as usize];
+    r.fill(&mut payload);
+    let mdat = bx(b"mdat", &payload);
+    let mut out = if r.chance(1, 2) { cat(&[&ftyp, &moov, &mdat]) } else { cat(&[&ftyp, &mdat, &moov]) };
+    let mut init_len = None;
+    if fragmented {
+        init_len = Some(out.len());
+        for seq in 0..1 + r.below(3) as u32 {
+            out.extend(g_moof(&mut r, seq + 1, &ids));
+            let mut p = vec![0u8; r.below(200) as usize];
+            r.fill(&mut p);
+            out.extend(bx(b"mdat", &p));
+        }
+    }
+    (out, init_len)
+}
+
+#[cfg(test)]
+mod grammar_tests {
+    use super::*;
+    use std::io::Cursor;
+    /// A healthy share of grammar images must get past read_header, or they test nothing.
+    #[test]
+    fn grammar_images_often_open() {
+        let mut opened = 0;
+        let mut with_tracks = 0;
+        let n = 2000;
+        let mut errs = std::collections::BTreeMap::new();
+        for seed in 0..n {
+            let (img, _) = grammar_image(seed);
+            match mp4::Mp4Reader::read_header(Cursor::new(img.clone()), img.len() as u64) {
+                Ok(r) => {
+                    opened += 1;
+                    if !r.tracks().is_empty() {
+                        with_tracks += 1;
+                    }
+                }
+                Err(e) => {
+                    *errs.entry(format!("{e}")).or_insert(0u32) += 1;
+                }
+            }
+        }
+        eprintln!("grammar: {opened}/{n} open, {with_tracks} with tracks; errors: {errs:?}");
+        assert!(opened * 100 / n >= 40, "only {opened}/{n} grammar images open");
     }
 }
